@@ -26,8 +26,9 @@ def main():
         print("replaying rule %s key %s" % only)
     try:
         mod.run(F, run)
-        if a.tier == "thorough" and hasattr(mod, "thorough"):
-            mod.thorough(F, run)
+        if a.tier == "thorough":
+            from . import thorough
+            thorough.run(pid, F, run, mod)
     except report.Inconclusive as e:
         run.inconclusive("engine", "exception", str(e))
     except Exception as e:  # a crash of the analysis is never a verdict on the property
